@@ -225,6 +225,82 @@ func cancelTrial(r *vh.Run, i int) {
 	r.Count("cancel_trials", 1)
 }
 
+// precancelTrial: requests that arrive with a context that is already cancelled (a client that has gone away before
+// the handler runs) - and requests cancelled at a random moment - must leave nothing behind: an ordinary request
+// afterwards returns and Close returns.  Decided by the stable-stall criterion, never by a deadline.
+func precancelTrial(r *vh.Run, i int) {
+	rng := r.Rand(4_000_000 + i)
+	kind := []vh.StoreKind{vh.Mem, vh.Dir, vh.MemDir}[i%3]
+	root := ""
+	if kind != vh.Mem {
+		root = r.TempDir("c12p")
+		defer vh.RemoveAll(root)
+	}
+	c := vh.Conf(kind, root, vh.Policy{Untagged: true, Grace: -1})
+	c.Storage.GC.Frequency = 4 * time.Millisecond
+	srv := vh.New(c)
+	wit := map[string]any{"trial": i, "store": kind.String()}
+	b := []byte(fmt.Sprintf("p%d", i))
+	d := vh.DigestOf("sha256", b)
+	vh.Do(srv, vh.Req{Method: "POST", URL: "/v2/p/blobs/uploads/?digest=" + d, Body: b})
+	reqs := []vh.Req{
+		{Method: "GET", URL: "/v2/p/tags/list"},
+		{Method: "HEAD", URL: "/v2/p/blobs/" + d},
+		{Method: "GET", URL: "/v2/p/blobs/" + d},
+		{Method: "POST", URL: "/v2/p/blobs/uploads/"},
+		{Method: "POST", URL: "/v2/p/blobs/uploads/?mount=" + d + "&from=p"},
+		{Method: "GET", URL: "/v2/p/referrers/" + d},
+		{Method: "GET", URL: "/v2/p/manifests/none", H: map[string]string{"Accept": vh.AcceptAll}},
+		{Method: "DELETE", URL: "/v2/p/manifests/none"},
+		{Method: "GET", URL: "/v2/never/seen/tags/list"},
+	}
+	for n := 0; n < 40; n++ {
+		rq := reqs[rng.Intn(len(reqs))]
+		ctx, cancel := context.WithCancel(context.Background())
+		if rng.Intn(3) > 0 {
+			cancel() // gone before the handler starts
+		} else {
+			go func(dl time.Duration) { time.Sleep(dl); cancel() }(time.Duration(rng.Intn(400)) * time.Microsecond)
+		}
+		rq.Ctx = ctx
+		done := make(chan struct{})
+		go func() { vh.Do(srv, rq); close(done) }()
+		res := vh.Watch(func() { <-done }, 3*time.Second, 40*time.Second)
+		cancel()
+		r.Count("cancelled_requests_sent", 1)
+		if res.Stalled {
+			wit["blocked_goroutines"] = res.Desc
+			r.Violation("cancelled-request-hangs", fmt.Sprintf("%s %s with a cancelled context never returns: every goroutine inside olareg is blocked (%s store)", rq.Method, rq.URL, kind), wit)
+			return
+		}
+		if !res.Done {
+			r.Inconclusive("a cancelled request was still running after 40 s without a stable stall")
+			return
+		}
+	}
+	// an ordinary request, then Close
+	res := vh.Watch(func() {
+		vh.Do(srv, vh.Req{Method: "GET", URL: "/v2/p/blobs/" + d})
+		vh.Do(srv, vh.Req{Method: "GET", URL: "/v2/p/tags/list"})
+	}, 3*time.Second, 40*time.Second)
+	if res.Stalled {
+		wit["blocked_goroutines"] = res.Desc
+		r.Violation("blocked-after-cancelled-requests", fmt.Sprintf("after 40 requests whose context was cancelled before or while they ran, an ordinary request to the same repository never returns (%s store)", kind), wit)
+		return
+	}
+	if !res.Done {
+		r.Inconclusive("the ordinary request after the cancelled ones was still running after 40 s without a stable stall")
+		return
+	}
+	res = vh.Watch(func() { _ = srv.Close() }, 3*time.Second, 40*time.Second)
+	if res.Stalled {
+		wit["blocked_goroutines"] = res.Desc
+		r.Violation("close-hangs", fmt.Sprintf("after requests with cancelled contexts Close does not return (%s store)", kind), wit)
+		return
+	}
+	r.Count("precancel_trials", 1)
+}
+
 func main() {
 	r := vh.Start()
 	vsync.SetTracking(true)
@@ -266,8 +342,15 @@ func main() {
 	mu.Lock()
 	st := stopAll
 	mu.Unlock()
+	np := r.N(12, 150)
 	if !st {
-		vh.Parallel(nc, 4, func(i int) { cancelTrial(r, i) })
+		vh.Parallel(nc+np, 4, func(i int) {
+			if i < nc {
+				cancelTrial(r, i)
+			} else {
+				precancelTrial(r, i-nc)
+			}
+		})
 	}
 	r.Count("lock_acquisitions", int(vsync.Acquisitions.Load()))
 	r.Count("contended_acquisitions", int(vsync.Contended.Load()))
@@ -289,7 +372,7 @@ func main() {
 		r.Require("contended_acquisitions", 100)
 		r.Require("requests_blocked_behind_collection", 3)
 	}
-	r.Finish("stress batches of 6-12 concurrent clients x 25 sequences (chunked uploads with pauses, status queries, cancel / abandon / complete, image + artifact pushes, referrers reads, deletes, listings, idle periods) against 1-3 repositories with grace period 20-60 ms, RepoUploadMax 2-4, collection every 5-10 ms, Close during traffic in a third of the batches, both stores, seeded jitter before every mutex acquisition and WaitGroup wait; plus trials in which a request is held open, a collection waits for it, and a third request is cancelled; a case is one batch or trial, distinct = configurations (store, grace, frequency, limit, clients, repositories)", "batches", "configs")
+	r.Finish("stress batches of 6-12 concurrent clients x 25 sequences (chunked uploads with pauses, status queries, cancel / abandon / complete, image + artifact pushes, referrers reads, deletes, listings, idle periods) against 1-3 repositories with grace period 20-60 ms, RepoUploadMax 2-4, collection every 5-10 ms, Close during traffic in a third of the batches, both stores, seeded jitter before every mutex acquisition and WaitGroup wait; plus trials in which a request is held open, a collection waits for it, and a third request is cancelled, and trials of 40 requests whose context is cancelled before or while they run followed by an ordinary request and Close; a case is one batch or trial, distinct = configurations (store, grace, frequency, limit, clients, repositories)", "batches", "configs")
 	if st {
 		os.Exit(0) // goroutines of the deadlocked batch are still parked
 	}
